@@ -20,7 +20,7 @@ EXPLANATION = (
     "sets of equal size is the length-then-alphabetical enumeration. 'Confirmed over all paths' is required; a reachability twin (post: False) must be "
     "refuted. Hex colours: Engine A runs the real hex2rgb / hex2rgbstr / hex2html on a symbolic string of 3 or 6 hex digits (each character a "
     "symbolic code point constrained to 0-9a-fA-F, optional '#'): z3 proves that the triple, the three printed numbers of 'rgb(r, g, b)' (exact "
-    "literal shape) and the value of the 6 upper-case digits of hex2html all denote the same colour, that 3-digit codes equal the digit-doubled "
+    "literal shape) and the value of the 6 upper-case digits of hex2html all denote the same colour (also as the second conversion after an arbitrary 3-/6-digit code in the same process), that 3-digit codes equal the digit-doubled "
     "6-digit code, and that hex2html's characters are upper-case hex digits. One query family covers all 22^3 and 22^6 codes."
 )
 BOUNDS = {"quick": dict(int2name="0 <= i < j <= 10^6, 30 s per condition", hex="all 3- and 6-digit codes over 0-9a-fA-F, with and without '#'"), "thorough": dict(int2name="0 <= i < j <= 10^7, 120 s per condition")}
@@ -35,7 +35,46 @@ def configs(tier):
     for n in (3, 6):
         for hsh in (False, True):
             out.append(dict(name="hex-%d%s" % (n, "-hash" if hsh else ""), n=n, hash=hsh, weight=3 ** n))
+    for seq in ([3, 6], [6, 3]):
+        out.append(dict(name="hex-history-%s" % "-".join(map(str, seq)), seq=seq, weight=3 ** 9, shards=16, lower_only_6=(tier == "quick")))
     return out
+
+
+def hist_run(e, cfg):
+    """several conversions in ONE process (module state re-created per path): every result must still be right"""
+    from vlib import instr
+
+    instr.fresh_import()
+    from labella import utils
+
+    sink = props.SymSink(e)
+    seq = cfg["seq"]
+    for step, n in enumerate(seq):
+        s = SymStr.fresh(e, "s%d" % step, n, 0, 127)
+        for c in s.cps:
+            e.assume(is_hex(c))
+            if cfg.get("lower_only_6") and n == 6:
+                e.assume(Or(c <= 57, c >= 97))  # quick tier: digits and lower-case letters in the 6-digit code (3^9 -> 27*64 paths)
+        code = ("#" + s) if (step % 2 == 0) else s
+        dv = []
+        for i, c in enumerate(s.cps):
+            v = e.integer("s%dv%d" % (step, i), 0, 15)
+            e.assume(digit_val_prop(c, v))
+            dv.append(v)
+        want = [dv[0] * 17, dv[1] * 17, dv[2] * 17] if n == 3 else [dv[0] * 16 + dv[1], dv[2] * 16 + dv[3], dv[4] * 16 + dv[5]]
+        rgb = utils.hex2rgb(code)
+        sink.check("hex2rgb-value-after-earlier-conversions", isinstance(rgb, tuple) and len(rgb) == 3 and And(*[rgb[k] == want[k] for k in range(3)]), info="step %d (%d digits) of %s" % (step, n, seq))
+        h = SymStr.lift(utils.hex2html(code))
+        if len(h) != 6:
+            sink.check("hex2html-has-6-characters", False, info="step %d" % step)
+            continue
+        ov = []
+        for i, c in enumerate(h.cps):
+            v = e.integer("s%dh%d" % (step, i), 0, 15)
+            e.assume(digit_val_prop(c, v))
+            ov.append(v)
+        sink.check("hex2html-denotes-the-same-colour-after-earlier-conversions", And(ov[0] * 16 + ov[1] == want[0], ov[2] * 16 + ov[3] == want[1], ov[4] * 16 + ov[5] == want[2]), info="step %d" % step)
+    instr.fresh_import()
 
 
 def is_hex(c):
@@ -52,6 +91,8 @@ def digit_val_prop(c, v):
 
 
 def run(e, cfg):
+    if cfg.get("seq"):
+        return hist_run(e, cfg)
     from labella import utils
 
     n = cfg["n"]
@@ -121,6 +162,18 @@ def replay(cfg, inputs, check, info):
         if utils.int2name(0) != "A":
             bad.append("int2name(0) = %r" % utils.int2name(0))
         return dict(violated=bool(bad), detail="; ".join(bad[:3]), signature="C20:int2name")
+    if cfg.get("seq"):
+        bad = []
+        for step, n in enumerate(cfg["seq"]):
+            code = "".join(chr(int(inputs["s%d_%d" % (step, i)])) for i in range(n))
+            full = ("#" + code) if step % 2 == 0 else code
+            six = code if n == 6 else "".join(ch * 2 for ch in code)
+            want = tuple(int(six[k : k + 2], 16) for k in (0, 2, 4))
+            if tuple(utils.hex2rgb(full)) != want:
+                bad.append("after %d earlier conversions hex2rgb(%r) = %r, expected %r" % (step, full, utils.hex2rgb(full), want))
+            if utils.hex2html(full) != six.upper():
+                bad.append("after %d earlier conversions hex2html(%r) = %r, expected %r" % (step, full, utils.hex2html(full), six.upper()))
+        return dict(violated=bool(bad), detail="; ".join(bad), signature="C20:hex-history")
     n = cfg["n"]
     code = "".join(chr(int(inputs["c_%d" % i])) for i in range(n))
     full = ("#" + code) if cfg["hash"] else code
